@@ -75,6 +75,8 @@ type Exec struct {
 	pools     map[*Object]Value
 	tainted   bool
 	task      int                       // 0 = main goroutine, k>0 = k-th spawned task of the current fork/join region
+	poolTask  map[*Object]int           // fork/join task that Put the pooled object (0 = outside a region)
+	poolThread map[*Object]int          // analysis thread that Put the pooled object
 	hbSeg     *hbSegment                // happens-before analysis: segment being recorded (nil outside analysed threads)
 	hbThreads map[int][]*hbSegment      // per analysis thread: its segments in program order
 	hbThread  int
